@@ -1260,6 +1260,18 @@ class Interp:
                 else:
                     env.set(name, ("call", ("ext", f"list.{e.func.attr}"), (cur, v), ()))
                 return
+        # name.insert(i, v)
+        if isinstance(e, ast.Call) and isinstance(e.func, ast.Attribute) and e.func.attr == "insert" and \
+                isinstance(e.func.value, ast.Name) and len(e.args) == 2 and not e.keywords:
+            name = e.func.value.id
+            cur = env.get(name)
+            i0, v = self.ev(e.args[0], env, ctx), self.ev(e.args[1], env, ctx)
+            if isinstance(cur, tuple):
+                if cur[0] == "list" and i0 == C(0):
+                    env.set(name, ("list", (v,) + cur[1]))
+                else:
+                    env.set(name, ("call", ("ext", "list.insert"), (cur, i0, v), ()))
+                return
         if isinstance(e, ast.Call) and isinstance(e.func, ast.Attribute) and e.func.attr in ("append", "extend") \
                 and isinstance(e.func.value, ast.Subscript) and isinstance(e.func.value.value, ast.Name) and len(e.args) == 1:
             name = e.func.value.value.id
@@ -1303,7 +1315,7 @@ class Interp:
                     return
             for i, t in enumerate(target.elts):
                 if isinstance(t, ast.Starred):
-                    self.assign(t.value, ("sub", v, ("slice", C(i), C(i - n + 1 or None), NONE)), env, ctx)
+                    self.assign(t.value, proj_sub(v, ("slice", C(i), C(i - n + 1 or None), NONE)), env, ctx)
                 elif star_idx and i > star_idx[0]:
                     self.assign(t, proj(v, i - n), env, ctx)
                 else:
@@ -1768,6 +1780,11 @@ class Interp:
             k.startswith("**") for k in kwargs)
         if opaque_args and not isinstance(f, tuple):
             f = self.reify(f)
+        if opaque_args and isinstance(f, tuple) and f[0] == "attr" and f[2] == "reshape" and not kwargs and \
+                f[1][0] != "ext":
+            # x.reshape(a, b, *rest) is jnp.reshape(x, (a, b, *rest))
+            shape = ("tuple", tuple(self.as_term(a) for a in args))
+            return norm_call(("ext", "jax.numpy.reshape"), [f[1], shape], {}, self.prog)
         if opaque_args and isinstance(f, tuple):
             targs = [self.as_term(a) for a in args]
             tkw = {k: self.as_term(v) for k, v in kwargs.items()}
@@ -2064,7 +2081,7 @@ def assigned_names(stmts) -> list[str]:
                 visit(s.orelse)
                 visit(s.finalbody)
             elif isinstance(s, ast.Expr) and isinstance(s.value, ast.Call) and isinstance(
-                    s.value.func, ast.Attribute) and s.value.func.attr in ("append", "extend") and isinstance(
+                    s.value.func, ast.Attribute) and s.value.func.attr in ("append", "extend", "insert") and isinstance(
                     s.value.func.value, ast.Name):
                 add(s.value.func.value.id)
             elif isinstance(s, ast.Expr) and isinstance(s.value, ast.Call) and isinstance(
